@@ -496,6 +496,8 @@ End Valid.
      This one is a co-constraint of the frozen tables (spec/audited_overrides.json, `add_constraint`), so it
      is already part of valid_obj.
    - marking-definition: `definition` is of the marking type `definition_type` names (marking_match below).
+   - STIX 2.0 object references name a member of their container with an allowed type (container_refs_ok below), at
+     the top of a member and inside its extensions / embedded objects.
    valid_obj_x is what the C02 oracle evaluates on the implementation's output and what the C03 generator
    filters candidates with.                                                                            *)
 (* the text read backwards, without its (at most two) trailing '=' *)
@@ -517,10 +519,76 @@ Fixpoint dict_value_ok (j : jvalue) : bool :=
   | _ => true
   end.
 
-Definition leaf_extra (k : pkind) (j : jvalue) : bool :=
+(* STIX 2.0 object references (part 3, object-ref: "a local reference to an Observable Object, that is, one which
+   MUST be valid within the local scope of the Observable Objects (objects) property of the Observed Data Object
+   that holds both"; each *_ref(s) property names the types it may point to): inside a container `cont` (key ->
+   observable object) every object reference, at the top of a member or inside its extensions / embedded objects,
+   names a key of the container whose object has an allowed type ([] = any). *)
+Definition objref_ok (cont : list (ustring * jvalue)) (vt : list ustring) (j : jvalue) : bool :=
+  match j with
+  | JStr key =>
+    match jlookup key cont with
+    | Some (JObj tm) => match jlookup (u "type") tm with
+                        | Some (JStr t) => match vt with [] => true | _ => mem_ustr t vt end
+                        | _ => false
+                        end
+    | _ => false
+    end
+  | _ => false
+  end.
+
+Fixpoint refs_in (sw : world) (fuel : nat) (cont : list (ustring * jvalue)) (cid : ustring) (j : jvalue) {struct fuel} : bool :=
+  match fuel with
+  | O => true
+  | S f =>
+    match find_class (wclasses sw) cid, j with
+    | Some c, JObj om =>
+      forallb (fun kv =>
+        match find (fun s => ustr_eqb (sname s) (fst kv)) (cslots c) with
+        | None => true
+        | Some s =>
+          let v := snd kv in
+          match skind s with
+          | KObjRef vt => objref_ok cont vt v
+          | KList (KObjRef vt) => match v with JArr l => forallb (objref_ok cont vt) l | _ => true end
+          | KEmbedded cls => refs_in sw f cont cls v
+          | KList (KEmbedded cls) | KListOf cls => match v with JArr l => forallb (refs_in sw f cont cls) l | _ => true end
+          | KExtensions vv =>
+            match v with
+            | JObj em => forallb (fun ekv => match assoc (fst ekv) (rextensions (reg_of sw vv)) with
+                                             | Some ecid => refs_in sw f cont ecid (snd ekv)
+                                             | None => true
+                                             end) em
+            | _ => true
+            end
+          | _ => true
+          end
+        end) om
+    | _, _ => true
+    end
+  end.
+
+Definition container_refs_ok (sw : world) (v : ver) (j : jvalue) : bool :=
+  match j with
+  | JObj cont =>
+    forallb (fun kv => match snd kv with
+                       | JObj om => match jlookup (u "type") om with
+                                    | Some (JStr t) => match assoc t (robservables (reg_of sw v)) with
+                                                       | Some cid => refs_in sw 6 cont cid (snd kv)
+                                                       | None => true
+                                                       end
+                                    | _ => true
+                                    end
+                       | _ => true
+                       end) cont
+  | _ => true
+  end.
+
+Definition leaf_extra (sw : world) (k : pkind) (j : jvalue) : bool :=
   match k with
   | KBinary => match j with JStr s => strict_base64 s | _ => false end
   | KDict _ => match j with JObj m => forallb (fun kv => dict_value_ok (snd kv)) m | _ => false end
+  | KObservable v => container_refs_ok sw v j
   | _ => true
   end.
 
@@ -570,8 +638,8 @@ Section ValidX.
   Variable sw : world.
   Variable pattern_ok : ver -> ustring -> bool.
 
-  Definition valid_kind_x : nat -> pkind -> jvalue -> bool := valid_kind_g sw pattern_ok leaf_extra (marking_match sw).
-  Definition valid_obj_x : nat -> ustring -> jvalue -> bool := valid_obj_g sw pattern_ok leaf_extra (marking_match sw).
+  Definition valid_kind_x : nat -> pkind -> jvalue -> bool := valid_kind_g sw pattern_ok (leaf_extra sw) (marking_match sw).
+  Definition valid_obj_x : nat -> ustring -> jvalue -> bool := valid_obj_g sw pattern_ok (leaf_extra sw) (marking_match sw).
 
   Definition explain_obj_x (fuel : nat) (cid : ustring) (j : jvalue) : list why :=
     match find_class (wclasses sw) cid, j with
